@@ -186,11 +186,12 @@ StructTriples ==
     IN [i \in 1..Len(few) |-> Sx(SV[few[i][1]] \o "," \o SV[few[i][2]] \o "," \o SV[few[i][3]])]
 Q4 == <<"1", "2", "3", "4">>
 StructQuads ==
-    [i \in 1..NSV |-> Sx(SV[i] \o "," \o SV[i] \o "," \o SV[i] \o "," \o SV[i])]
-    \o [i \in 1..(4 * NSV) |->
-          LET p == ((i - 1) \div NSV) + 1  v == SV[((i - 1) % NSV) + 1]
-              e(k) == IF k = p THEN v ELSE Q4[k]
-          IN Sx(e(1) \o "," \o e(2) \o "," \o e(3) \o "," \o e(4))]
+    LET subs == SelectSeq([i \in 1..(4 * NSV) |-> <<((i - 1) \div NSV) + 1, SV[((i - 1) % NSV) + 1]>>],
+                          LAMBDA x : x[2] # Q4[x[1]])
+        e(x, k) == IF k = x[1] THEN x[2] ELSE Q4[k]
+    IN <<Sx("1,2,3,4")>>
+       \o [i \in 1..NSV |-> Sx(SV[i] \o "," \o SV[i] \o "," \o SV[i] \o "," \o SV[i])]
+       \o [i \in 1..Len(subs) |-> Sx(e(subs[i], 1) \o "," \o e(subs[i], 2) \o "," \o e(subs[i], 3) \o "," \o e(subs[i], 4))]
 StructSeries == TLCEval(StructPairs \o StructTriples \o StructQuads)
 NaturalPool == <<
   P("nat61", "61"), P("nat60", "60"), P("natplus", "+5"), P("nat32bit", "4294967296"),
